@@ -719,23 +719,7 @@ theorem cons_nbtFieldDyn : Cons 0 Registry.nbtFieldDyn := by
   cases r with
   | ok a => simp only; exact ⟨hd, fun _ _ => by omega⟩
   | panic => simp only; exact ⟨hd, fun _ h => by simp at h⟩
-  | err =>
-    simp only
-    rcases h1 : Rd.readByte s with ⟨r1, s1⟩
-    have c1 := cons_run cons_readByte h1
-    cases r1 with
-    | ok t =>
-      simp only
-      split
-      · split
-        · rename_i v se hp
-          have := (endPartial_le _).1 _ _ _ hp
-          simp only
-          exact ⟨by omega, fun _ _ => by omega⟩
-        · simp only; exact ⟨hd, fun _ h => by simp at h⟩
-      · simp only; exact ⟨hd, fun _ h => by simp at h⟩
-    | err => simp only; exact ⟨hd, fun _ h => by simp at h⟩
-    | panic => simp only; exact ⟨hd, fun _ h => by simp at h⟩
+  | err => simp only; exact ⟨hd, fun _ h => by simp at h⟩
 
 namespace Reg
 open GoMC.Model.Registry
